@@ -190,6 +190,31 @@ def eval_project(w, part, proj, r, origin, annotate):
                 part.held(('rerun-changed', n))
             elif (lib.get('k') == 'ok') != (rc3 == 0):
                 part.inconc('rerun-verdict-mismatch')
+        # the same sources with the OTHER annotate flag, and a changed source that carries an OLD modification time (restored
+        # from a backup, checked out): the populated directory must still end up equal to a fresh transpilation
+        cur = [(f, open(os.path.join(root, 'src', f), encoding='utf-8').read()) for f, _ in files]
+        for step in ('flag-changed', 'changed-with-old-mtime'):
+            flag = annotate
+            if step == 'flag-changed':
+                flag = not annotate
+            else:
+                j = r.randrange(n)
+                cur = [(f, (s_ + 'print("late")\n' if i == j else s_)) for i, (f, s_) in enumerate(cur)]
+                write_project(os.path.join(root, 'src'), cur)
+                os.utime(os.path.join(root, 'src', cur[j][0]), (978307200, 978307200))
+            lib = w.pipe([('src/' + f, s_) for f, s_ in cur], annotate=flag, srcdir='src')
+            rc4, err4, _ = run_cli(root, args, flag, trace=False)
+            part.count('rerun-' + step)
+            if lib.get('k') == 'ok' and rc4 == 0:
+                fresh = {f[:-6] + '.py': hashlib.sha1(lib['py'][i].replace('\r\n', '\n').encode()).hexdigest() for i, (f, _) in enumerate(cur)}
+                got = snapshot(os.path.join(root, outdir))
+                if got != fresh:
+                    bad = sorted(f for f in fresh if got.get(f) != fresh[f])
+                    part.violation(f'rerun:stale-content-after-{step}', dict(wit, differs=bad, step=step, annotate_of_rerun=flag))
+                    return
+                part.held(('rerun-' + step, n))
+            elif (lib.get('k') == 'ok') != (rc4 == 0):
+                part.inconc('rerun-verdict-mismatch')
         # ------------------------------------------------------------ (iv) fault enumeration: all-or-nothing
         populated = snapshot(os.path.join(root, outdir))
         for j2 in range(n):
